@@ -78,3 +78,112 @@ func VerifH_C06_Arithmetic() {
 	vAssert(eval.Rescale(a0, NewCiphertext(params, 1, 0)) != nil, "Rescale-at-level-0-is-an-error")
 	vCover("C06-reached")
 }
+
+// Operand shapes: operands of different degrees (a non-relinearised product as first or second operand, a plaintext),
+// operands of unequal scales (integer ratio) with every output aliasing, level drop.
+func VerifH_C06_OperandShapes() {
+	c, eval := vSetup()
+	params := c.Params
+	level := params.MaxLevel()
+	r := params.RingQ().AtLevel(level)
+	a := vAtomCiphertext(c, 1, level, "a", 256)
+	b := vAtomCiphertext(c, 1, level, "b", 256)
+	d := vAtomCiphertext(c, 1, level, "d", 65536)
+	pa, pb, pd := vPhase(c, a), vPhase(c, b), vPhase(c, d)
+	ab := NewCiphertext(params, 2, level)
+	vAssert(eval.Mul(a, b, ab) == nil, "shapes-Mul-no-error")
+	pab := r.NewPoly()
+	r.MulCoeffsBarrett(pa, pb, pab)
+	want := r.NewPoly()
+	// degree 1 minus degree 2, degree 2 minus degree 1, and the sums
+	out := NewCiphertext(params, 2, level)
+	vAssert(eval.Sub(d, ab, out) == nil, "shapes-Sub-degree1-minus-degree2-no-error")
+	r.Sub(pd, pab, want)
+	vAssertPolyEq(r, vPhase(c, out), want, "shapes-Sub-degree1-minus-degree2-phase-is-difference")
+	out = NewCiphertext(params, 2, level)
+	vAssert(eval.Sub(ab, d, out) == nil, "shapes-Sub-degree2-minus-degree1-no-error")
+	r.Sub(pab, pd, want)
+	vAssertPolyEq(r, vPhase(c, out), want, "shapes-Sub-degree2-minus-degree1-phase-is-difference")
+	out = NewCiphertext(params, 2, level)
+	vAssert(eval.Add(d, ab, out) == nil, "shapes-Add-degree1-plus-degree2-no-error")
+	r.Add(pd, pab, want)
+	vAssertPolyEq(r, vPhase(c, out), want, "shapes-Add-degree1-plus-degree2-phase-is-sum")
+	// plaintext operand (degree 0)
+	pt := NewPlaintext(params, level)
+	vFillAtoms(r, pt.Value, "p", vMessage)
+	pt.Scale = rlwe.NewScale(256)
+	out1 := NewCiphertext(params, 1, level)
+	vAssert(eval.Sub(a, pt, out1) == nil, "shapes-Sub-plaintext-no-error")
+	r.Sub(pa, pt.Value, want)
+	vAssertPolyEq(r, vPhase(c, out1), want, "shapes-Sub-plaintext-phase-is-difference")
+	// unequal scales with an integer ratio: the smaller-scale operand is multiplied by the ratio, the output carries
+	// the larger scale - whatever the output aliases
+	e := vAtomCiphertext(c, 1, level, "e", 768) // 3 * 256
+	pe := vPhase(c, e)
+	three := r.NewPoly()
+	r.MulScalar(pa, 3, three)
+	for _, mode := range []string{"fresh", "out-is-op0", "out-is-op1"} {
+		for _, swap := range []bool{false, true} {
+			x, y := a.CopyNew(), e.CopyNew()
+			px, py := three, pe
+			if swap {
+				x, y = e.CopyNew(), a.CopyNew()
+				px, py = pe, three
+			}
+			var o *rlwe.Ciphertext
+			switch mode {
+			case "fresh":
+				o = NewCiphertext(params, 1, level)
+			case "out-is-op0":
+				o = x
+			default:
+				o = y
+			}
+			tag := "unequal-scales-" + mode
+			if swap {
+				tag += "-larger-first"
+			}
+			vAssert(eval.Add(x, y, o) == nil, tag+"-Add-no-error")
+			r.Add(px, py, want)
+			vAssertPolyEq(r, vPhase(c, o), want, tag+"-Add-phase-is-the-sum-at-the-larger-scale")
+			vAssert(vScaleEq(o.Scale, 768, 1), tag+"-Add-output-carries-the-larger-scale")
+			x, y = a.CopyNew(), e.CopyNew()
+			if swap {
+				x, y = e.CopyNew(), a.CopyNew()
+			}
+			switch mode {
+			case "fresh":
+				o = NewCiphertext(params, 1, level)
+			case "out-is-op0":
+				o = x
+			default:
+				o = y
+			}
+			vAssert(eval.Sub(x, y, o) == nil, tag+"-Sub-no-error")
+			r.Sub(px, py, want)
+			vAssertPolyEq(r, vPhase(c, o), want, tag+"-Sub-phase-is-the-difference-at-the-larger-scale")
+			vAssert(vScaleEq(o.Scale, 768, 1), tag+"-Sub-output-carries-the-larger-scale")
+		}
+	}
+	// level drop
+	dl := a.CopyNew()
+	eval.DropLevel(dl, 1)
+	vAssert(dl.Level() == level-1 && vScaleEq(dl.Scale, 256, 1), "DropLevel-level-and-scale")
+	rl := params.RingQ().AtLevel(level - 1)
+	pdl := vPhase(c, dl)
+	trunc := *pa.CopyNew()
+	trunc.Resize(level - 1)
+	vAssertPolyEq(rl, pdl, trunc, "DropLevel-keeps-the-lower-limbs")
+	// out-of-place rescale into a ciphertext allocated at the lower level and at the same level
+	prod := NewCiphertext(params, 1, level)
+	vAssert(eval.MulRelin(a, b, prod) == nil, "shapes-MulRelin-no-error")
+	qL := r.SubRings[level].Modulus
+	for oi, o := range []*rlwe.Ciphertext{NewCiphertext(params, 1, level-1), NewCiphertext(params, 1, level)} {
+		tag := "Rescale-out-of-place-" + vItoa(oi)
+		vAssert(eval.Rescale(prod, o) == nil, tag+"-no-error")
+		vAssert(o.Level() == level-1, tag+"-level")
+		vAssert(vScaleEq(o.Scale, 65536, int64(qL)), tag+"-scale-divided-by-the-consumed-prime")
+		vAssert(vScaleEq(prod.Scale, 65536, 1) && prod.Level() == level, tag+"-input-unchanged")
+	}
+	vCover("C06-shapes-reached")
+}
